@@ -74,17 +74,25 @@ type eventer struct {
 	conn int
 }
 
+// clip keeps histories small when a scenario moves megabyte-sized commands: the first 64 bytes stand for the rest.
+func clip(b []byte) []byte {
+	if len(b) > 1<<16 {
+		b = b[:64]
+	}
+	return append([]byte(nil), b...)
+}
+
 func snapMsg(kind string, conn int, m *service.Message) Event {
 	e := Event{Kind: kind, Conn: conn, Cmd: uint16(m.Command)}
 	if m.JTMessage != nil {
-		e.Body = append([]byte(nil), m.JTMessage.Body...)
+		e.Body = clip(m.JTMessage.Body)
 		if m.JTMessage.Header != nil {
 			e.Ser = m.JTMessage.Header.SerialNumber
 			e.Key = m.JTMessage.Header.TerminalPhoneNo
 		}
 	}
 	e.Data = append([]byte(nil), m.ExtensionFields.TerminalData...)
-	e.Data2 = append([]byte(nil), m.ExtensionFields.PlatformData...)
+	e.Data2 = clip(m.ExtensionFields.PlatformData)
 	e.PSeq = m.ExtensionFields.PlatformSeq
 	if m.ExtensionFields.Err != nil {
 		e.Err = m.ExtensionFields.Err.Error()
@@ -296,6 +304,7 @@ type terminal struct {
 	phone  []byte
 	v2019  bool
 	rdone  chan struct{}
+	stall  atomic.Bool // set: the reader stops taking bytes off the socket (a peer that no longer reads)
 }
 
 func (t *terminal) write(b []byte) error {
@@ -391,8 +400,14 @@ func (t *terminal) reader() {
 	buf := make([]byte, 4096)
 	var acc []byte
 	for {
+		for t.stall.Load() {
+			time.Sleep(time.Millisecond)
+		}
 		n, err := t.conn.Read(buf)
 		if n > 0 {
+			if len(acc) > 1<<20 { // megabyte-sized commands are only drained, not kept
+				acc = acc[:0]
+			}
 			acc = append(acc, buf[:n]...)
 			frames, rest := ref.SplitFrames(acc)
 			for _, fr := range frames {
@@ -434,6 +449,11 @@ func (t *terminal) close(mode string) {
 		_ = c.SetLinger(0)
 	}
 	t.r.add(Event{Actor: t.name, Kind: "close", Note: mode})
+	if mode == "half" { // FIN only: the server sees EOF, nothing resets its pending writes
+		_ = c.CloseWrite()
+		return
+	}
+	t.stall.Store(false)
 	_ = c.Close()
 }
 
@@ -480,6 +500,7 @@ func (t *terminal) run(steps []Step, bars *barriers) {
 			t.conn = c.(*net.TCPConn)
 			_ = t.conn.SetNoDelay(true)
 			t.wmu.Unlock()
+			t.stall.Store(false)
 			t.mu.Lock()
 			t.frames, t.eof = 0, false
 			t.mu.Unlock()
@@ -490,6 +511,9 @@ func (t *terminal) run(steps []Step, bars *barriers) {
 			_ = t.write(s.Hex)
 		case "pause":
 			time.Sleep(time.Duration(s.PauseUs) * time.Microsecond)
+		case "stall_reads":
+			_ = t.conn.SetReadBuffer(4096)
+			t.stall.Store(true)
 		case "respond":
 			t.mu.Lock()
 			t.rules = s.Rules
@@ -723,7 +747,11 @@ func runPlatform(a Actor, srv *service.GoJT808, r *rec, bars *barriers) {
 			call := func() {
 				r.add(Event{Actor: a.Name, Kind: "call_start", Call: s.CallID, Key: s.Key, Cmd: s.Cmd})
 				t0 := time.Now()
-				am := service.NewActiveMessage(s.Key, consts.JT808CommandType(s.Cmd), s.Body, time.Duration(s.TimeoutMs)*time.Millisecond)
+				body := []byte(s.Body)
+				if s.BodyFill > 0 {
+					body = bytes.Repeat([]byte{0x55}, s.BodyFill)
+				}
+				am := service.NewActiveMessage(s.Key, consts.JT808CommandType(s.Cmd), body, time.Duration(s.TimeoutMs)*time.Millisecond)
 				if s.ReuseMsg {
 					rk := fmt.Sprintf("%s/%04x", s.Key, s.Cmd)
 					reuseMu.Lock()
@@ -745,7 +773,7 @@ func runPlatform(a Actor, srv *service.GoJT808, r *rec, bars *barriers) {
 				ev := Event{Actor: a.Name, Kind: "call_result", Call: s.CallID, Key: s.Key, Cmd: s.Cmd, DurUs: time.Since(t0).Microseconds()}
 				if res != nil {
 					ev.PSeq = res.ExtensionFields.PlatformSeq
-					ev.Data = append([]byte(nil), res.ExtensionFields.PlatformData...)
+					ev.Data = clip(res.ExtensionFields.PlatformData)
 					ev.Data2 = append([]byte(nil), res.ExtensionFields.TerminalData...)
 					ev.Flag = res.ExtensionFields.Err == nil
 					if res.ExtensionFields.Err != nil {
